@@ -27,6 +27,7 @@ import (
 	ocispec "github.com/opencontainers/image-spec/specs-go/v1"
 	"oras.land/oras-go/v2/errdef"
 	"oras.land/oras-go/v2/internal/fs/tarfs"
+	"oras.land/oras-go/v2/internal/verifhook"
 )
 
 // ReadOnlyStorage is a read-only CAS based on file system with the OCI-Image
@@ -61,6 +62,7 @@ func (s *ReadOnlyStorage) Fetch(_ context.Context, target ocispec.Descriptor) (i
 	}
 
 	fp, err := s.fsys.Open(path)
+	verifhook.Point("oci.Fetch")
 	if err != nil {
 		if errors.Is(err, fs.ErrNotExist) {
 			return nil, fmt.Errorf("%s: %s: %w", target.Digest, target.MediaType, errdef.ErrNotFound)
@@ -79,6 +81,7 @@ func (s *ReadOnlyStorage) Exists(_ context.Context, target ocispec.Descriptor) (
 	}
 
 	_, err = fs.Stat(s.fsys, path)
+	verifhook.Point("oci.Exists")
 	if err != nil {
 		if errors.Is(err, fs.ErrNotExist) {
 			return false, nil
